@@ -26,6 +26,12 @@ def run(ch, params, decoded=False):
     prefix = R.gen_prefix_ops(ch, params, mode, params.get("max_prefix", 0))
     want_dyn = (not prog["py_entry"]) and ch.chance(1, 3, "variant_dynamic")
     slot_funcs = ch.draw(8, "slot_funcs") if prog["py_entry"] else 0
+    rerender = None
+    if not prog["py_entry"] and ch.chance(1, 3, "rerender"):
+        n2 = ch.draw(4, "rerender_len")
+        rerender = {"pl": [("" if ch.chance(1, 4, "rr_falsy") else f"r{k}") for k in range(n2)],
+                    "pt": not ch.chance(1, 2, "rr_pt"), "pf": ch.chance(1, 2, "rr_pf"),
+                    "pn": ["b", "a"][: 1 + ch.draw(2, "rr_pn")], "pa": "" if ch.chance(1, 4, "rr_pa") else "QA"}
     w = R.start_world(knobs, mode)
     violations = []
     stats = {"mode=" + mode: 1, "prefix_ops": len(prefix)}
@@ -62,6 +68,29 @@ def run(ch, params, decoded=False):
         w.begin_op()
         check("python", R.real_render_python(prog, classes, w, budget=budget, slot_funcs=slot_funcs), exp["result"])
         stats["variant:Component.render"] = 1
+    if rerender and not violations and not prog["py_entry"]:
+        # history on the SAME compiled page: one Template object (same nodes, same cached component templates) rendered
+        # again with other data - lists of other lengths, flipped booleans - must still refine the model
+        from django.template import Context, Template
+
+        prog2 = dict(prog, ctx=dict(prog["ctx"], **rerender))
+        exp2 = ref.run_model(prog2)
+        tpl = Template(emit.page_source(prog))
+        for which, pr_, ex_ in (("first", prog, exp), ("second", prog2, exp2)):
+            w.begin_op()
+            try:
+                with R.StepBudget(budget * 2):
+                    real_ = ("ok", str(tpl.render(Context(dict(pr_["ctx"])))))
+            except world.StepBudgetExceeded as e:
+                real_ = ("hang", str(e))
+            except RecursionError:
+                real_ = ("hang", "RecursionError")
+            except Exception as e:
+                real_ = ("err", type(e).__name__, str(e), e)
+            check("same-template-" + which, real_, ex_["result"])
+            if violations:
+                break
+        stats["variant:same Template object re-rendered with other data"] = 1
 
     feats = R.program_features(prog, model)
     stats["result=" + exp["result"][0] + (":" + exp["result"][1] if exp["result"][0] == "err" else "")] = 1
@@ -77,5 +106,6 @@ def run(ch, params, decoded=False):
     }
     if decoded or violations:
         res["decoded"] = {"knobs": knobs, "history_prefix": R.decoded_ops(prefix), "program": R.decoded_program(prog),
+                          "rerender_with": rerender,
                           "expected": list(exp["result"][:3]), "observed": observed}
     return res
